@@ -940,7 +940,12 @@ def check_commute(case):
     geo = ri.axis_geometry(gspec)
     dr = geo[0][3]
     mask = cart_interior_mask([np.atleast_1d(lhs), np.atleast_1d(rhs)])
-    mask &= (q["r"] >= geo[0][0] + 2.5 * dr) & (q["r"] <= geo[0][1] - 2.5 * dr)
+    # (grids without a hole: the profiles a*r + b*r**2 have a cusp at the origin/axis, which the Cartesian
+    # stencil of spacing h must not come close to either - discretisation error ~ (h/r)**2 of the scale; false
+    # alarm of the thorough tier with h = 3.7*dr otherwise)
+    h_cart = max((b[1] - b[0]) / k for b, k in zip(tspec["bounds"], tspec["shape"]))
+    r_lo = geo[0][0] + (2.5 * dr if geo[0][0] > 0 else max(2.5 * dr, 2.5 * h_cart))
+    mask &= (q["r"] >= r_lo) & (q["r"] <= geo[0][1] - 2.5 * dr)
     if cls == "cyl":
         dz = geo[1][3]
         mask &= (q["grid"][1] >= geo[1][0] + 2.5 * dz) & (q["grid"][1] <= geo[1][1] - 2.5 * dz)
